@@ -426,7 +426,22 @@ def pick_op(rng, cur):
             imgs = m.to_images()
             order = list(m.keys())
             holder = {"imgs": imgs}
-            return m, (lambda z: geom.MultiImage.from_images(holder["imgs"])), True, "images"
+            # from_images(images, n_lead_axes, axis): every image gets n_lead_axes unit axes and is appended along `axis`; the
+            # default form in one case of two, otherwise a non-default pair - the unit axes are then dropped by the harness
+            # (plain indexing of the blocks), so the closer still has to hand back the opening state
+            nla, ax = [(1, 0), (1, 0), (2, 0), (2, 1), (3, 2), (3, 0)][int(rng.integers(6))]
+            if (nla, ax) == (1, 0):
+                return m, (lambda z: geom.MultiImage.from_images(holder["imgs"])), True, "images"
+
+            def closer(z):
+                w = geom.MultiImage.from_images(holder["imgs"], n_lead_axes=nla, axis=ax)
+                out = {}
+                for t, v in w.items():
+                    if any(v.shape[j] != 1 for j in range(nla) if j != ax):
+                        raise RoundTripError(f"from_images(n_lead_axes={nla}, axis={ax}): block {t} has leading shape {tuple(v.shape[:nla])}, every axis but axis {ax} must have length 1")
+                    out[t] = v[tuple(slice(None) if j == ax else 0 for j in range(nla))]
+                return geom.MultiImage(out, w.D, w.is_torus)
+            return m, closer, True, "images"
         return op
     return None
 
